@@ -283,3 +283,53 @@ func Verif_C11_same_id_race() {
 	_, route := s.knownConnectionCosts["A"]["B"]
 	verifapi.Assert("winner-keeps-its-route", route)
 }
+
+// verifDirectUpdate is a routing update of peer id about itself that lists us with the given cost.
+func verifDirectUpdate(id, updateID string, seq uint64, cost float64) []byte {
+	ru := &routingUpdate{NodeID: id, UpdateID: updateID, UpdateEpoch: 5, UpdateSequence: seq,
+		Connections: map[string]float64{"A": cost}, ForwardingNode: id}
+	return append([]byte{MsgTypeRoute}, verifapi.JSON(ru)...)
+}
+
+// Verif_C11_cost_override_is_per_peer: one backend (one BackendInfo shared by all its sessions) with
+// link cost 1 and a per-node override "B costs 5". B connects (before or after the other peer) and
+// confirms cost 5. Another peer C - for which no override exists - announces cost 1 or cost 5: it stays
+// connected iff it agrees with the backend's own cost 1; B's override does not spill over to other peers.
+func Verif_C11_cost_override_is_per_peer() {
+	verifapi.SelectFork(false)
+	n := verifNetceptor("A")
+	s := n.s
+	bi := &BackendInfo{connectionCost: 1, nodeCost: map[string]float64{"B": 5}}
+	bFirst := verifapi.Bool()
+	cCost := []float64{1, 5}[verifapi.Choose(2)]
+	var rb, rc *verifRun
+	startB := func() {
+		rb = verifStartProtocol(n, [][]byte{verifDirectUpdate("B", "hb", 1, 5), verifDirectUpdate("B", "ub", 2, 5)}, bi)
+		verifapi.Quiesce()
+	}
+	startC := func() {
+		rc = verifStartProtocol(n, [][]byte{verifDirectUpdate("C", "hc", 1, cCost), verifDirectUpdate("C", "uc", 2, cCost)}, bi)
+		verifapi.Quiesce()
+	}
+	if bFirst {
+		startB()
+		startC()
+	} else {
+		startC()
+		startB()
+	}
+	verifapi.Cover("both-peers-handled")
+	cb, bConn := s.connections["B"]
+	verifapi.Assert("peer-with-override-connected-at-the-override-cost", verifapi.All(bConn, cb != nil, cb.Cost == 5, !verifRejected(*rb.sess.sent)))
+	cc, cConn := s.connections["C"]
+	if cCost == 1 {
+		verifapi.Assert("peer-agreeing-with-the-backend-cost-stays-connected", verifapi.All(cConn, cc != nil, cc.Cost == 1, !verifRejected(*rc.sess.sent)))
+		verifapi.Assert("its-link-is-recorded-at-the-backend-cost", s.knownConnectionCosts["A"]["C"] == 1)
+	} else {
+		verifapi.Assert("peer-disagreeing-with-the-backend-cost-rejected", verifapi.All(!cConn, verifRejected(*rc.sess.sent)))
+	}
+	close(rb.sess.gate)
+	close(rc.sess.gate)
+	verifapi.Quiesce()
+	verifapi.Assert("no-lock-left-held", verifapi.HeldLocks() == 0)
+}
